@@ -76,11 +76,11 @@ func Explore(b Bounds, body func(), check func(s *vsched.Sched, cost [2]int) boo
 		st.ByPreempt[cost[0]]++
 		if s.Fatal {
 			fmt.Fprintln(os.Stderr, "mc: fatal:", s.Deadlock)
-			os.Exit(3)
+			os.Exit(43) // machinery: the scheduler itself gave up (not Go's exit status 2 of a runtime crash)
 		}
 		if s.Diverged != "" {
 			fmt.Fprintln(os.Stderr, "mc: machinery error:", s.Diverged, "prefix", prefix)
-			os.Exit(2)
+			os.Exit(42)
 		}
 		if s.HitHor {
 			st.Capped = true
